@@ -1607,3 +1607,100 @@ T("C14", "twin-mandatory-by-key-loop", SIM,
     }
     if missing_fields:
         raise ValueError(''', "key-presence test written as a comprehension")
+
+# ---- seconds and microseconds rounded together (seed C16-d)
+M("C16", "mixed-rounding", UT,
+  "datetime.fromtimestamp(unix_nano / 1e9, tz=UTC)",
+  "datetime.fromtimestamp(unix_nano / 1e9, tz=UTC).replace(microsecond=unix_nano // 10**3 % 10**6)",
+  "R16.3", "seconds from nearest-rounding, microseconds from truncation")
+T("C16", "twin-all-truncated", UT,
+  "datetime.fromtimestamp(unix_nano / 1e9, tz=UTC)",
+  "datetime.fromtimestamp(unix_nano // 10**9, tz=UTC).replace(microsecond=unix_nano // 10**3 % 10**6)",
+  "both fields by integer truncation")
+
+# ===================================================== wave d (session 3)
+M("C10", "pending-list-sorted", SQL,
+  "        self.batch_insert_objects(self.node_models_to_save)\n",
+  "        self.node_models_to_save.sort(key=lambda node: node.start_timestamp)\n"
+  "        self.batch_insert_objects(self.node_models_to_save)\n",
+  "R10.5", "pending list re-ordered in place before a failing insert (seed C10-d)")
+_JM_OLD = '''    for job_group in job_id_streams:
+        try:
+            yield convert_otel_event_stream_to_event_id_to_otelevent_map(
+                job_group
+            )
+        except OTelTreeDisconnectedError:
+            LOGGER.warning('''
+M("C12", "try-around-trace-loop", SEQ, _JM_OLD,
+  '''    try:
+        for job_group in job_id_streams:
+            yield convert_otel_event_stream_to_event_id_to_otelevent_map(
+                job_group
+            )
+    except OTelTreeDisconnectedError:
+        for _ in ():
+            LOGGER.warning(''', "R12.2",
+  "handler around the per-trace loop: one broken trace ends the stream")
+M("C14", "loader-strips-whitespace", TY,
+  '''    """Pydantic model for PVEvent"""
+''',
+  '''    """Pydantic model for PVEvent"""
+
+    model_config = {"str_strip_whitespace": True}
+''', "R14.3", "validation model rewrites loaded strings (seed C14-d)")
+T("C14", "twin-model-config-benign", TY,
+  '''    """Pydantic model for PVEvent"""
+''',
+  '''    """Pydantic model for PVEvent"""
+
+    model_config = {"extra": "ignore"}
+''', "a model_config option that does not touch values")
+_DC_OLD = "    events_for_calculations = deepcopy(events)\n"
+_DC_NEW = ("    events_for_calculations = (\n"
+           "        deepcopy(events) if len(events) > 50 else events\n    )\n")
+M("C04", "conditional-deepcopy", P2P, _DC_OLD, _DC_NEW, "R4.5",
+  "derived phases sometimes run on the model itself (seed C01-d)")
+M("C01", "conditional-deepcopy", P2P, _DC_OLD, _DC_NEW, "R1.8",
+  "derived phases sometimes run on the model itself (seed C01-d)")
+T("C04", "twin-deepcopy-via-temp", P2P, _DC_OLD,
+  "    snapshot = deepcopy(events)\n    events_for_calculations = snapshot\n",
+  "the copy is bound to a temporary first")
+_MM_OLD = '''        self._min_timestamp = min(
+            self._min_timestamp, otel_event.start_timestamp
+        )
+        self._max_timestamp = max(
+            self._max_timestamp,
+            otel_event.end_timestamp
+        )'''
+M("C11", "window-elif", BASE, _MM_OLD,
+  '''        if otel_event.start_timestamp < self._min_timestamp:
+            self._min_timestamp = otel_event.start_timestamp
+        elif otel_event.end_timestamp > self._max_timestamp:
+            self._max_timestamp = otel_event.end_timestamp''', "R11.8",
+  "a span that lowers the minimum cannot raise the maximum (seed C11-d)")
+T("C11", "twin-window-two-ifs", BASE, _MM_OLD,
+  '''        if otel_event.start_timestamp < self._min_timestamp:
+            self._min_timestamp = otel_event.start_timestamp
+        if otel_event.end_timestamp > self._max_timestamp:
+            self._max_timestamp = otel_event.end_timestamp''',
+  "compare-and-assign, each end independently")
+_LT_OLD = '''    return datetime_to_pv_string(
+        datetime.fromtimestamp(unix_nano / 1e9, tz=UTC)
+    )'''
+_LT_NEW = '''    seconds, nanoseconds = divmod(unix_nano, 10**9)
+    return datetime_to_pv_string(
+        datetime.fromtimestamp(seconds).replace(
+            microsecond=nanoseconds // 1000, tzinfo=UTC
+        )
+    )'''
+M("C08", "end-time-in-local-zone", UT, _LT_OLD, _LT_NEW, "R8.9",
+  "local wall clock labelled as UTC (seed C08-d)")
+M("C16", "end-time-in-local-zone", UT, _LT_OLD, _LT_NEW, "R16.3",
+  "local wall clock labelled as UTC (seed C08-d)")
+T("C16", "twin-divmod-utc", UT, _LT_OLD,
+  '''    seconds, nanoseconds = divmod(unix_nano, 10**9)
+    return datetime_to_pv_string(
+        datetime.fromtimestamp(seconds, tz=UTC).replace(
+            microsecond=nanoseconds // 1000
+        )
+    )''', "integer split, UTC, truncation on both fields")
